@@ -9,11 +9,17 @@ LEVEL = "model_checking"
 
 RULE = ("impl->spec: seeded random training sets (4..120 rows, 1..6 features, integers or sixteenths: small values "
         "with many repeats / constant columns / pairwise-distinct columns; 2..4 classes with arbitrary label values "
-        "incl. single-row classes, or integer / dyadic / arbitrary real targets), n_trees 1..30, m in {None,1..p}, max_depth {None,1..8}, "
+        "incl. single-row classes and float label sets (closer than machine epsilon, non-integer, colliding under truncation, "
+        "adjacent floats, 1e+-300, -0.0 with 0.0; recorded as order-preserving codes), feature columns symmetric about zero "
+        "(+-1, {-2,-1,1,2}, centred ranks: thresholds exactly 0.0), or integer / dyadic / arbitrary real targets; forest == forest "
+        "and forest == refit observed on every first fit), n_trees 1..30, m in {None,1..p}, max_depth {None,1..8}, "
         "min_samples_leaf 1..5, min_samples_split 0..8, 3 criteria, keep_samples on/off, seeds incl. 0, 1, 2^64-1; "
         "every setting is fitted with two seeds, twice each, interleaved (A B A B; first fits through the inherent fit/predict, "
         "second fits through the api traits SupervisedEstimator::fit / Predictor::predict), the earliest keys again at the "
-        "end of the session; first fits are observed completely (serde dump: trees[], samples[]; every member "
+        "end of the session; systematic families: every n in 4..120 with class sizes 1/(n-1) and 1/2/3/(n-6) (thorough more), "
+        "few-tree forests (1..4 trees, kept samples), float label sets on small-class profiles, deep chains (reg: y = ratio^x, "
+        "110..260 rows, member trees 70..130 levels, per-row power-of-two scale; harness-assembled 70..140-level decision chains, "
+        "cls and reg), a size ladder n / batch length in {63,64,65,...,511,512,513} (thorough ..1025, 3000); first fits are observed completely (serde dump: trees[], samples[]; every member "
         "tree's public predict; predict on training + unseen rows; predict_oob).  spec->impl: every terminal "
         "state of the ForestAgg model is assembled as a real forest through serde and run through the real "
         "predict/predict_oob.  A fitted forest is non-trivial when some row's vote is not unanimous (cls) / "
@@ -92,6 +98,9 @@ def report_bads(ctx, bads, events, origin):
             origin = "assembled"
         key = "%s: %s forest, %s" % (clause, kind_of(e, events), origin if ev != "ForestRefit" else "refit")
         what = "%s fails on %s" % (clause, describe(e))
+        if clause == "EqualFits":
+            what = ("forest == forest is %s and forest == (second forest fitted with the same data, parameters and seed) is %s for %s"
+                    % (e["eqSelf"], e["eqRefit"], describe(e)))
         if clause == "OobAnswers":
             st = e["obs"]["oobStatus"]
             if origin == "assembled":
